@@ -28,7 +28,8 @@ def groups(tier, seed):
     g("HDR_MALLOC", "mzd_t_malloc")
     g("HDR_FREE", "mzd_t_free")
     g("HDR_FREE_HEAP", "mzd_t_free (header from plain malloc)")
-    for rmax, cmax in ((3, 130),) if tier == "quick" else ((3, 130), (2, 700), (6, 64)):
-        g("INIT", "mzd_init", extra={"RMAX": rmax, "CMAX": cmax}, bounded=True, note="rows<=%d, cols<=%d (sizes symbolic in that box)" % (rmax, cmax))
-        g("WINDOW_FREE", "mzd_init_window/mzd_free", extra={"RMAX": rmax, "CMAX": cmax}, bounded=True, note="parent %dx%d, window placement symbolic" % (rmax, cmax))
+    for rmax, cmax in ((3, 130), (1, 1), (0, 5), (4, 0), (2, 64)) if tier == "quick" else ((3, 130), (1, 1), (0, 5), (4, 0), (2, 64), (2, 700), (6, 65), (17, 3)):
+        g("INIT", "mzd_init", extra={"RMAX": rmax, "CMAX": cmax}, bounded=True, note="%d x %d" % (rmax, cmax), timeout=900)
+        if rmax and cmax:
+            g("WINDOW_FREE", "mzd_init_window/mzd_free", extra={"RMAX": rmax, "CMAX": cmax}, bounded=True, note="parent %dx%d, window placement symbolic" % (rmax, cmax), timeout=900)
     return gs
